@@ -9,6 +9,7 @@ import (
 	"bytes"
 	"crypto/cipher"
 	"encoding/binary"
+	"encoding/hex"
 	"encoding/json"
 	"fmt"
 	"io"
@@ -172,6 +173,10 @@ func recordMode(seed int64, cases int, enc *json.Encoder) error {
 			return fmt.Errorf("honest handshake failed: %v %v", r.ea, r.eb)
 		}
 		put(enc, Ev{E: "case"})
+		if c%6 == 5 { // several goroutines write whole messages concurrently: every Write must stay contiguous and in nonce order
+			concurrentCase(rng, r, enc)
+			continue
+		}
 		nw := 1 + rng.Intn(4)
 		var writes []int
 		frames, total := 0, 0
@@ -261,6 +266,97 @@ func recordMode(seed int64, cases int, enc *json.Encoder) error {
 		_ = r.b.Close()
 	}
 	return nil
+}
+
+// concurrentCase: W writers x M messages; message k of writer w is `len` bytes, all equal to the tag byte, preceded by a
+// 3 byte header (tag, len hi, len lo). The reader splits the stream back into messages; the writes are logged in the order the
+// reader saw them (the model's Write is atomic, so any order of whole messages is a behaviour of the model).
+func concurrentCase(rng *rand.Rand, r *pairResult, enc *json.Encoder) {
+	r.ab.mu.Lock()
+	r.ab.frameMode = true
+	r.ab.base = r.ab.idx
+	r.ab.mu.Unlock()
+	W, M := 2+rng.Intn(5), 6+rng.Intn(20)
+	lens := []int{1, 500, 1021, 1022, 2000, 2045, 3069, 3500}
+	total := 0
+	plan := make([][]int, W)
+	for w := range plan {
+		for m := 0; m < M; m++ {
+			n := lens[rng.Intn(len(lens))]
+			plan[w] = append(plan[w], n)
+			total += n + 3
+		}
+	}
+	var wg sync.WaitGroup
+	for w := 0; w < W; w++ {
+		wg.Add(1)
+		go func(w int) {
+			defer wg.Done()
+			for _, n := range plan[w] {
+				msg := make([]byte, n+3)
+				msg[0], msg[1], msg[2] = byte(w+1), byte(n>>8), byte(n)
+				for j := 3; j < len(msg); j++ {
+					msg[j] = byte(w + 1)
+				}
+				_ = r.a.SetWriteDeadline(time.Now().Add(3 * time.Second))
+				if _, err := r.a.Write(msg); err != nil {
+					return
+				}
+			}
+		}(w)
+	}
+	var got []byte
+	var reads []Ev
+	for len(got) < total {
+		buf := make([]byte, 4096)
+		_ = r.b.SetReadDeadline(time.Now().Add(600 * time.Millisecond))
+		n, err := r.b.Read(buf)
+		got = append(got, buf[:n]...)
+		if err != nil {
+			if ne, ok := err.(net.Error); ok && ne.Timeout() && n == 0 {
+				break
+			}
+			reads = append(reads, Ev{E: "read", B: 4096, N: n, Err: true, Msg: err.Error()})
+			break
+		}
+		reads = append(reads, Ev{E: "read", B: 4096, N: n})
+	}
+	_ = r.a.Close()
+	_ = r.b.Close()
+	wg.Wait()
+	// split into messages
+	whole, seen := true, 0
+	var order []int
+	for i := 0; i < len(got); {
+		if i+3 > len(got) {
+			whole = len(got) < total // a cut stream is judged by the read error, not here
+			break
+		}
+		tag, n := got[i], int(got[i+1])<<8|int(got[i+2])
+		end := i + 3 + n
+		if tag == 0 || int(tag) > W {
+			whole = false
+			break
+		}
+		if end > len(got) {
+			end = len(got)
+		}
+		for j := i + 3; j < end; j++ {
+			if got[j] != tag {
+				whole = false
+			}
+		}
+		order = append(order, n+3)
+		seen++
+		i += 3 + n
+	}
+	for _, n := range order {
+		put(enc, Ev{E: "write", N: n})
+	}
+	for _, e := range reads {
+		put(enc, e)
+	}
+	put(enc, Ev{E: "end", N: len(got), PrefixOK: whole && len(got) == total})
 }
 
 // ---- handshake scenarios ----------------------------------------------------------------------------------------
@@ -458,6 +554,19 @@ func handshakeMode(seed int64, enc *json.Encoder) error {
 		{0x5f, 0x9c, 0x95, 0xbc, 0xa3, 0x50, 0x8c, 0x24, 0xb1, 0xd0, 0xb1, 0x55, 0x9c, 0x83, 0xef, 0x5b, 0x04, 0x44, 0x5c, 0xc4, 0x58, 0x1c, 0x8e, 0x86, 0xd8, 0x22, 0x4e, 0xdd, 0xd0, 0x9f, 0x11, 0x57},
 		{0xed, 0xff, 0xff, 0xff, 0xff, 0xff, 0xff, 0xff, 0xff, 0xff, 0xff, 0xff, 0xff, 0xff, 0xff, 0xff, 0xff, 0xff, 0xff, 0xff, 0xff, 0xff, 0xff, 0xff, 0xff, 0xff, 0xff, 0xff, 0xff, 0xff, 0xff, 0x7f},
 		{0xee, 0xff, 0xff, 0xff, 0xff, 0xff, 0xff, 0xff, 0xff, 0xff, 0xff, 0xff, 0xff, 0xff, 0xff, 0xff, 0xff, 0xff, 0xff, 0xff, 0xff, 0xff, 0xff, 0xff, 0xff, 0xff, 0xff, 0xff, 0xff, 0xff, 0xff, 0x7f},
+	}
+	hexs := []string{ // small-order points in Ed25519 encoding (the ephemeral keys are Ed25519 keys converted to X25519)
+		"0100000000000000000000000000000000000000000000000000000000000000",
+		"0000000000000000000000000000000000000000000000000000000000000080",
+		"26e8958fc2b227b045c3f489f2ef98f0d5dfac05d3c63339b13802886d53fc05",
+		"26e8958fc2b227b045c3f489f2ef98f0d5dfac05d3c63339b13802886d53fc85",
+		"c7176a703d4dd84fba3c0b760d10670f2a2053fa2c39ccc64ec7fd7792ac037a",
+		"c7176a703d4dd84fba3c0b760d10670f2a2053fa2c39ccc64ec7fd7792ac03fa",
+		"ecffffffffffffffffffffffffffffffffffffffffffffffffffffffffffffff",
+	}
+	for _, h := range hexs {
+		bz, _ := hex.DecodeString(h)
+		lowOrder = append(lowOrder, bz)
 	}
 	type variant struct {
 		name string
